@@ -233,6 +233,17 @@ class History:
                     self._gexit_interrupted.discard(t)
                     errs = [x for x in (hb[1] if hb else []) if not is_cancel_code(x)]
                     expected.setdefault(b, []).extend(errs)
+                    gs_b = group_scope.get(b)
+                    if errs and res[0] == "blocked" and gs_b and b not in tainted_groups and gs_b in snap["scopes"] \
+                            and snap["scopes"][gs_b]["active"]:
+                        # the body failed: from now on (also for tasks started during the exit checkpoint of an empty
+                        # group) everything in the group has to be cancelled
+                        self.flags.add("body_error_in_exit")
+                        self._failed_group_scopes.add(gs_b)
+                        if not ref_eff_cancelled(snap, gs_b):
+                            self.v("C02", f"step {i}: the body of group {b} failed with {errs} and the host is waiting in __aexit__, but "
+                                          f"the group's scope {gs_b} is not (effectively) cancelled: tasks started in the group from "
+                                          f"now on are not cancelled")
                     if hb and hb[0] and any(is_cancel_code(x) for x in hb[1]):
                         self._user_wrapped.add(b)       # the program itself put a cancellation into a group
                 elif c == S.FINISH:
@@ -318,6 +329,9 @@ class History:
                         self.check_containment(t, origins, prev, i, shield_events)
                     if op0[0] == S.SHIELDCK and any(o > 0 for o in origins):
                         self.v("C08", f"step {i}: cancel_shielded_checkpoint of task {t} was interrupted by AnyIO cancellation {origins}")
+                        self.v("C04", f"step {i}: task {t} received the AnyIO cancellation {origins} inside cancel_shielded_checkpoint(), "
+                                      f"which is a shielded scope for the duration of its yield: code inside a shielded scope is "
+                                      f"never interrupted")
                     if op0[0] == S.CKIF:
                         # every re-check of the spin of checkpoint_if_cancelled, not only its entry (F46)
                         vis = ref_eff_cancelled(prev, prev["tasks"][t]["cur"])
